@@ -2,7 +2,7 @@
 """C07 at SCALE, with unusual identifier SPELLINGS, under every optional parameter, and for the LEGALITY of a statement
 (oracles on the real code alone).
 
-    PYTHONPATH=/verif /venv/bin/python /verif/harness/agents/c07_scale.py [--seed 0] [--n 260] [--thorough]
+    PYTHONPATH=/verif /venv/bin/python /verif/harness/agents/c07_scale.py [--seed 0] [--n 100] [--thorough]
 
 Why.  The other C07 streams (`build_diff.py`, `c07_entry.py`, `c07_edge.py`) draw programs with at most a dozen header
 names, four macros, blocks three deep, names from a pool of nine letters - and they only judge programs the library
@@ -15,18 +15,22 @@ Programs.  Every program starts as a collision-rich program of `c07_edge.Gen` (p
 / aliases, statement texts re-used in every scope where they are valid) and is then stretched along ONE dimension to a
 size drawn from {8, 16, 32, 48, 64, 100, 128, 256 (thorough also 1000)} - 1 / + 0 / + 1, everything else staying small:
 
-* `header`   that many header names (lets / whole-register aliases / one-qubit aliases / extra registers, before or
-             after the original names) plus a macro whose parameters are named like the first / 48th / 49th / last /
+* `header`   that many header names (lets / whole-register aliases / one-qubit aliases, before or after the original
+             names; a program may hold only ONE register) plus a macro whose parameters are named like the first / 48th / 49th / last /
              random padded names, of the same or of ANOTHER sort than what they shadow, each used as a direct argument,
              as an array index and as an array name; the same texts again in the main body (where they mean the header
              objects) and in a later macro;
 * `macros`   that many macros with colliding parameters whose bodies come from the shared pool of statement texts;
 * `stmts`    that many statements in one block (main body, a macro body, a loop or a parallel block): distinct ones
              (to fill any table) mixed with re-used texts, and the re-used texts again after the block, in another scope;
+             after `macros` and `stmts` also NEAR TWINS: statements that differ in one place only (gate ka / kb / kab,
+             argument a let / the number it binds / its neighbour), in the main body and under a shadowing parameter;
 * `nest`     a statement under that many nested blocks ({ } < > loop, one subcircuit), textually identical copies of it
-             at several depths;
-* `chain`    a chain of that many macros forwarding parameters under the same (or rotated) names, named like header names;
-* `alias`    a chain of that many aliases (<= 130), parameters named like links in the middle of the chain;
+             at several depths (<= 129 quick, <= 257 thorough: beyond ~190 the library says "Program is nested too deeply");
+* `chain`    a chain of that many macros (<= 130 quick, <= 300 thorough) forwarding parameters under the same (or rotated)
+             names, named like header names;
+* `alias`    a chain of that many aliases (<= 101 quick, <= 130 thorough: fill_in_let is cubic in it), parameters named
+             like links in the middle of the chain;
 * `params`   a macro with that many parameters (all header names among them), the first / last / middle ones used;
 * `args`     gate statements with that many arguments (9..13 always among the sizes: `p10` sorts before `p2`), in several scopes;
 * `names`    no stretching; every name of the program - lets, registers, aliases, parameters, macros, gates - is replaced by
@@ -36,6 +40,12 @@ size drawn from {8, 16, 32, 48, 64, 100, 128, 256 (thorough also 1000)} - 1 / + 
              anonymous parameters (`array_item`, `gate`, `p0`, `p10`), number look-alikes (`e5`, `inf`), names of 255 /
              256 / 300 / 1000 characters that differ only in the last one, and gate names spelled like identifiers of
              the program.  One in four programs of the other dimensions is renamed the same way.
+
+Fixed programs (whatever the seed): the collisions of the property written out at every header size 7..257 (thorough
+..1001); every spelling of the pools once as a let / as the register / as a direct argument only / as an alias - shadowed
+and not shadowed, as argument, index and array name; and ~240 (thorough ~470) PAIRS of confusable spellings (`cal.x` / `x`,
+`p1` / `p10`, two 256-character names that differ in the last character, ...) as the two parameters of one macro and as
+two lets.
 
 Reference.  The lexical evaluation of the JSON tree (the one of `c07_edge.py`, re-stated here without its depth bound
 and with several registers): inside a macro a name is the parameter of that name if there is one, else the header
@@ -65,7 +75,9 @@ Oracles (all on the real code alone)
 Not covered here (said so that nobody assumes it): `expand_let_map` / `fill_in_map` and the emulator pipeline (covered,
 at small sizes, by `c07_entry.py`).
 
-Sizes: quick n=260 (~10 s), thorough n=1500 (~2 min; n is raised to 1200 when smaller).
+Sizes: quick n=100 (about 7 s on a quiet machine, 10-25 s when all cores are busy: 100 stretched programs, ~1100 small
+fixed ones, 50 legality cases of four programs; ~4000 judged stages), thorough n=400 (about 2 min; n is raised to 300 when smaller; ~35000 judged stages).
+Deep recursion (nesting, chains) is slow in this sandbox and dominates the running time.
 Importable: `run(seed, n, driver, thorough) -> dict`, `replay(case, driver) -> dict`; `corr` is empty (no Lean model here).
 """
 import argparse
@@ -702,6 +714,22 @@ class Stretch:
         self.prog["macros"].append(m)
         self.prog["main"].append(_C(name, *self.call_args(m, self.hscope, [])))
 
+    def near_twins(self):
+        """statements that differ from one another in ONE place only - the gate name (ka / kb / kab), the argument (a let /
+        the number it binds / a neighbouring number) - at the end of the main body and in a macro whose parameter is named
+        like the let: whatever was built before must not leak into any of them"""
+        lets = [n for n, v in self.hscope.items() if v in ("idx", "cnt", "num")]
+        x = self.pick(lets) if lets else None
+        args = [_n(1), _n("1.0"), _n(2)] + ([_id(x)] if x else [])
+        stmts = [_G(g, a) for a in args for g in ("ka", "kb", "kab")]
+        self.rng.shuffle(stmts)
+        self.prog["main"].extend(copy(stmts))
+        if x:
+            self.rng.shuffle(stmts)
+            self.prog["macros"].append(["zt", [x], ["num"], "seq", copy(stmts)])
+            self.prog["main"].append(_C("zt", _n(7)))
+            self.prog["main"].extend(copy(stmts[:4]))
+
     # ---- the dimensions
     def header(self):
         n = self.size()
@@ -756,6 +784,7 @@ class Stretch:
         self.echo_macro("zy", m)
         for _ in range(3):
             self.prog["main"].append(self.gen.gen_simple(self.hscope, [], self.macros_dict()))
+        self.near_twins()
         self.meta["macros"] = len(self.prog["macros"])
 
     def fresh_stmt(self, i, scope):
@@ -797,9 +826,11 @@ class Stretch:
                 self.prog["main"].append(copy(s))
         m = self.collision_macro("zz", [self.pick(list(self.hscope)) for _ in range(self.pick([1, 2, 3]))])
         self.echo_macro("zy", m)
+        self.near_twins()
 
     def nest(self):
-        d = self.size(extra=(20, 40))
+        # (the library refuses programs nested deeper than about 190 blocks: "Program is nested too deeply")
+        d = self.size(cap=257 if self.thorough else 129, extra=(20, 40))
         k = self.pick([None, None] + [j for j, m in enumerate(self.prog["macros"]) if m[3] == "seq"])
         if k is None:
             scope, params, before, target = dict(self.hscope), [], self.macros_dict(), self.prog["main"]
@@ -1205,6 +1236,30 @@ def fixed_programs(thorough):
         main = [_C("foo", _it(nm, _n(0))), _C("bar", _n(1)), _C("baz", _id(nm), _id(other)), _G("h", _id(other), _it(nm, _n(1)))]
         P.append(({"lets": [], "reg": [nm, 3], "regs": [], "maps": [[hrr, "slice", nm, 1, None, None], [other, "qubit", nm, 2]],
                    "macros": macros, "main": main}, {"dim": "fixed spelling (register)", "size": 0}))
+        # only as a direct argument (never an index): a let not shadowed / shadowed by a qubit / a whole-register alias
+        macros = [["foo", [hq], ["qubit"], "seq", [_G("u", _id(hq), _id(nm)), _G("k", _id(nm))]],
+                  ["bar", [nm], ["qubit"], "seq", [_G("g", _id(nm)), _G("u", _id(nm), _n("0.25"))]]]
+        main = [_C("foo", _it(hr, _n(0))), _C("bar", _it(hr, _n(1))), _G("k", _id(nm)), _G("u", _it(hr, _n(2)), _id(nm))]
+        P.append(({"lets": [[nm, "0.5", "num"]], "reg": [hr, 3], "regs": [], "maps": [], "macros": macros, "main": main},
+                  {"dim": "fixed spelling (argument)", "size": 0}))
+        macros = [["foo", [hq], ["qubit"], "seq", [_G("h", _id(hq), _it(nm, _n(1))), _G("w", _id(nm))]],
+                  ["bar", [nm], ["num"], "seq", [_G("k", _id(nm)), _G("w", _id(hr))]],
+                  ["baz", [hr], ["idx"], "seq", [_G("g", _it(nm, _id(hr))), _G("w", _id(nm))]]]
+        main = [_C("foo", _it(nm, _n(0))), _C("bar", _n("1.5")), _C("baz", _n(2)), _G("w", _id(nm)), _G("h", _it(hr, _n(0)), _it(nm, _n(1)))]
+        P.append(({"lets": [], "reg": [hr, 3], "regs": [], "maps": [[nm, "whole", hr]], "macros": macros, "main": main},
+                  {"dim": "fixed spelling (alias)", "size": 0}))
+    # pairs of spellings that are easily confused, as the two parameters of one macro and as two lets of the header
+    pairs = []
+    for fam in list(ID_FAMILIES) + [long_family(n) for n in (255, 256, 300, 1000)]:
+        pairs += [(fam[i], fam[j]) for i in range(len(fam)) for j in ((i + 1, i + 2) if thorough else (i + 1,)) if j < len(fam)]
+    for a, b in pairs:
+        macros = [["foo", [a, b], ["idx", "num"], "seq", [_G("u", _it(hr, _id(a)), _id(b)), _G("kk", _id(b), _id(a))]],
+                  ["bar", [b, a], ["idx", "num"], "seq", [_G("u", _it(hr, _id(b)), _id(a)), _C("foo", _id(b), _id(a))]],
+                  ["baz", [b], ["reg"], "seq", [_G("g", _it(b, _id(a))), _C("foo", _id(a), _n("0.25"))]]]
+        main = [_C("foo", _n(2), _n("0.5")), _C("bar", _n(0), _n("1.5")), _C("baz", _id(hr)), _G("u", _it(hr, _id(a)), _id(b)),
+                _G("kk", _id(b), _id(a)), _C("foo", _id(a), _id(b))]
+        P.append(({"lets": [[a, "1", "idx"], [b, "-2.5", "num"]], "reg": [hr, 3], "regs": [], "maps": [], "macros": macros, "main": main},
+                  {"dim": "fixed pair of spellings", "size": 0}))
     return P
 
 
@@ -1219,17 +1274,27 @@ def run(seed: int, n: int, driver: str = DEFAULT_DRIVER, thorough: bool = False)
     res = {"corr": {}, "oracle": {o: {"cases": 0, "failures": []} for o in ORACLES},
            "distribution": {}, "samples": [], "nontrivial": 0}
     if thorough:
-        n = max(n, 1200)
+        n = max(n, 300)
     distinct = set()
     for k, (prog, meta) in enumerate(fixed_programs(thorough)):
-        run_program(res, prog, ALL_STAGES if thorough else quick_stages(k, 1), meta)
+        if thorough:
+            st = ALL_STAGES if meta["dim"] == "fixed header" else quick_stages(k + seed, 5)
+        elif meta["dim"] == "fixed header" or k % 4 == seed % 4:
+            st = quick_stages(k, 1)
+        else:  # ~1300 tiny programs: parse and expand_macros for all, the other stages for a quarter of them (by seed)
+            st = QUICK_CORE[:2]
+        run_program(res, prog, st, meta)
         distinct.add(render(prog))
         _bump(res, f"programs: {meta['dim']}")
     for k in range(n):
         dim = DIMENSIONS[k % len(DIMENSIONS)]
         st = Stretch(rng, thorough)
-        prog, meta = st.build(dim, respell=(dim == "names") or st.chance(0.25))
-        text = render(prog)
+        try:
+            prog, meta = st.build(dim, respell=(dim == "names") or st.chance(0.25))
+            text = render(prog)
+        except RecursionError:
+            _bump(res, f"generator: recursion limit ({dim})")
+            continue
         distinct.add(text)
         _bump(res, f"programs: {dim}")
         if meta.get("respelled"):
@@ -1241,7 +1306,14 @@ def run(seed: int, n: int, driver: str = DEFAULT_DRIVER, thorough: bool = False)
         for key in ("padding", "block", "nesting", "chain"):
             if key in meta:
                 _bump(res, f"{dim}: {meta[key]}")
-        run_program(res, prog, ALL_STAGES if thorough else quick_stages(k // len(DIMENSIONS) + k), meta)
+        # (deep recursion is slow in this sandbox: the deep programs get one rotating stage in the quick tier, the others
+        # two; in the thorough tier four, the others every stage)
+        deep = dim in ("nest", "chain", "alias")
+        if thorough:
+            st_list = quick_stages(k // len(DIMENSIONS) + k, 4) if deep else ALL_STAGES
+        else:
+            st_list = quick_stages(k // len(DIMENSIONS) + k, 1 if deep else 2)
+        run_program(res, prog, st_list, meta)
         if k < len(DIMENSIONS) and len(res["samples"]) < 6 and k % 2 == 0:
             res["samples"].append({"meta": meta, "text": short(text, 1200)})
     for k in range(max(20, n // 2)):
@@ -1294,7 +1366,7 @@ def main():
     ap = argparse.ArgumentParser()
     ap.add_argument("--driver", default=DEFAULT_DRIVER)
     ap.add_argument("--seed", type=int, default=0)
-    ap.add_argument("--n", type=int, default=260)
+    ap.add_argument("--n", type=int, default=100)
     ap.add_argument("--thorough", action="store_true")
     ap.add_argument("--json", action="store_true")
     a = ap.parse_args()
